@@ -395,32 +395,40 @@ func ruleIsNilMeansNull(c *Ctx, rid string) {
 		}
 		return false
 	}
+	var judge func(v ssa.Value, facts []Atom, where string, d int)
+	judge = func(v ssa.Value, facts []Atom, where string, d int) {
+		if cb, ok := constBool(v); ok {
+			if !cb {
+				return
+			}
+			// constant true: must be under the nil fact of the payload
+			for _, at := range facts {
+				if at.Kind == "nil" && at.Pos {
+					if _, f, _, ok := fieldOf(at.X); ok && f == "bytes" {
+						return
+					}
+				}
+			}
+			problems = append(problems, "true is returned on a path that did not test payload == nil")
+			return
+		}
+		if phi, ok := v.(*ssa.Phi); ok && d < 3 {
+			// `a && b` / `a || b`: every edge judged with the facts of that edge
+			for i, e := range phi.Edges {
+				pred := phi.Block().Preds[i]
+				judge(e, edgeFacts(pred, succIndex(pred, phi.Block())), where, d+1)
+			}
+			return
+		}
+		if !isNilTestOfPayload(v) {
+			problems = append(problems, fmt.Sprintf("the result at %s is not the test payload == nil (an empty payload would count as null)", where))
+		}
+	}
 	for _, r := range returnsOf(fn) {
 		if len(r.Results) != 1 {
 			continue
 		}
-		v := retOperand(r, 0)
-		if cb, ok := constBool(v); ok {
-			if !cb {
-				continue
-			}
-			// constant true: must be under the nil fact of the payload
-			okNil := false
-			for _, at := range factsAt(r.Block()) {
-				if at.Kind == "nil" && at.Pos {
-					if _, f, _, ok := fieldOf(at.X); ok && f == "bytes" {
-						okNil = true
-					}
-				}
-			}
-			if !okNil {
-				problems = append(problems, "true is returned on a path that did not test payload == nil")
-			}
-			continue
-		}
-		if !isNilTestOfPayload(v) {
-			problems = append(problems, fmt.Sprintf("the result at %s is not the test payload == nil (an empty payload would count as null)", c.P.instrPos(r)))
-		}
+		judge(r.Results[0], factsAt(r.Block()), c.P.instrPos(r), 0)
 	}
 	c.check(len(problems) == 0, rid, "Message.IsNil", c.P.pos(fn.Pos()), "null means payload == nil", strings.Join(problems, "; "))
 }
